@@ -298,9 +298,10 @@ func (c *Ctx) ssaFunc(pkgShort, name string) *ssa.Function {
 		if !ok {
 			return nil
 		}
-		if f := c.Prog.LookupMethod(types.NewPointer(t.Type()), sp.Pkg, mn); f != nil {
+		if f := c.Prog.LookupMethod(types.NewPointer(t.Type()), sp.Pkg, mn); f != nil && f.Synthetic == "" {
 			return f
 		}
+		// a method with a value receiver: the pointer method set only holds a synthetic wrapper
 		return c.Prog.LookupMethod(t.Type(), sp.Pkg, mn)
 	}
 	f, _ := sp.Members[name].(*ssa.Function)
